@@ -1712,5 +1712,5 @@ var Prop = &kernel.Property{
 		"ignored_hidden", "not_logged_ignored", "not_logged_disabled", "crash_lost_memory_entries", "legacy_conf_rejected", "hostile_rejected_4xx", "hostile_answered_200", "older_than_absent_incomplete", "scan_limit_continuation",
 		"storage_healed", "failed_flush_by_add", "failed_flush_by_flush", "failed_flush_by_shutdown", "flush_resumed_after_io_error", "file_entry_unreachable", "tick_during_storage_fault", "shutdown_during_storage_fault",
 		"sched_steps", "sched_switches", "sched_spawned_flush_tasks", "par_recorded", "par_listing_checked", "par_flushes_in_phase", "par_last_add_fills_buffer", "par_add_while_flush_pending", "par_ring_overwrote_entries",
-		"par_rotation", "par_flush_then_rotation", "par_tick_on_the_hour", "par_log_works_after_phase", "par_skipped_storage_fault"},
+		"par_rotation", "par_flush_then_rotation", "par_tick_on_the_hour", "par_log_works_after_phase"},
 }
